@@ -583,6 +583,54 @@ Proof.
   apply reach_op; [apply reach_op; [apply reach_init|] |]; cbn; [split; [reflexivity | discriminate] | exact I].
 Qed.
 
+(** "an error if and only if no certificate is available", in model terms, any policy: the lookup
+    fails exactly when nothing matched and the IDNA conversion failed, or the name does not qualify,
+    or there is neither a default / fallback certificate nor a servable one to load *)
+Theorem C03_error_iff_nothing_available : forall lower is_space sel conn s cap cfg sni ip e,
+  fst (lookup_x lower is_space sel conn s cap cfg sni ip e) = RErr <->
+  (forall c v, from_cache_x lower is_space sel conn s cfg sni ip <> Some (c, true, v)) /\
+  match hello_name lower is_space cfg ip (x_idna e) with
+  | None => True
+  | Some nm => subject_qualifies is_space nm = false \/
+               (from_cache_x lower is_space sel conn s cfg sni ip = None /\
+                servable_load cap s e nm = false)
+  end.
+Proof. exact lookup_x_error_iff. Qed.
+Print Assumptions C03_error_iff_nothing_available.
+
+(** a stored certificate that is due for renewal but still valid is served and is not in the cache
+    afterwards *)
+Theorem C03_due_certificate_served_then_gone : forall lower is_space sel conn s cap cfg sni ip e x c s',
+  lookup_x lower is_space sel conn s cap cfg sni ip e = (ROk c, s') ->
+  (forall c' v, from_cache_x lower is_space sel conn s cfg sni ip <> Some (c', true, v)) ->
+  load_ok lower is_space cap s cfg ip e x -> sd_servable x = true -> sd_fresh x = false ->
+  c = sd_cert x /\ amem (c_hash c) (cache s') = false.
+Proof. exact due_certificate_served_then_gone. Qed.
+Print Assumptions C03_due_certificate_served_then_gone.
+
+(** GetCertificate as a whole: the cache is touched only when almost full; and for an ordinary
+    ClientHello (made by crypto/tls, no veto, not a TLS-ALPN challenge) with the default policy it IS
+    [lookup], so that every theorem about [lookup] above is a theorem about GetCertificate *)
+Theorem C03_get_certificate_touches_cache_only_when_almost_full :
+  forall lower is_space sel abort protos conn s cap cfg sni ip e,
+  almost_full cap (length (cache s)) = false ->
+  snd (get_certificate lower is_space sel abort protos conn s cap cfg sni ip e) = s.
+Proof. exact get_certificate_touches_only_when_almost_full. Qed.
+Print Assumptions C03_get_certificate_touches_cache_only_when_almost_full.
+
+Theorem C03_get_certificate_is_lookup : forall lower is_space sup valid protos s cap cfg sni ip e,
+  acme_tls_alpn sni protos = false ->
+  fst (get_certificate lower is_space (select_cert sup valid) false protos true s cap cfg sni ip e) =
+  lookup lower is_space sup valid s cap cfg sni ip (env_of lower is_space cfg ip e).
+Proof. exact get_certificate_is_lookup. Qed.
+Print Assumptions C03_get_certificate_is_lookup.
+
+(** the selector double that accepts only supported unexpired choices answers with one *)
+Theorem C03_good_selector_answers_good : forall sup valid l c,
+  custom_pick sup valid PGoodMin l = Some c -> good sup valid c /\ In c l.
+Proof. intros. split; [eapply custom_pick_good; eauto | eapply custom_pick_In; eauto]. Qed.
+Print Assumptions C03_good_selector_answers_good.
+
 Definition n_lo : name := [49; 50; 55; 46; 48; 46; 48; 46; 49]%N.       (* 127.0.0.1 *)
 Definition ex_lo := Cert [108]%N [n_lo] false [] [] 0%Z [].              (* l: 127.0.0.1 *)
 Definition ex_state2 := run 0 init [OAdd ex_e1 None; OAdd ex_w None; OAdd ex_lo None].
